@@ -334,6 +334,86 @@ class normalize_chunks_ints_rank1:
                 yield {"chunks": (c,), "shape": (s,)}
 
 
+def _ext_npdtype(ex, st, args, kwargs, node):
+    """np.dtype(x): some dtype object"""
+    return ex.fresh_value("abs:DType", "npdtype")
+
+
+@contract(f"{CORE}::normalize_chunks", spec="ints-rank1-kw", props=["C16", "C14"])
+class normalize_chunks_ints_rank1_kw:
+    """the same layout whatever limit, dtype and previous_chunks are passed along with an integer specification
+    (they only steer 'auto' entries): this is the form Rechunk.chunks calls"""
+    params = {"chunks": "tup:int", "shape": "tup:int", "limit": "optint", "dtype": "abs:DType", "previous_chunks": "tup:seq"}
+    result = "tup:seq"
+    raises = {}  # an accepted integer specification is never refused
+    externals = {"np.dtype": _ext_npdtype}
+    havoc = {"dtype and (not isinstance(dtype, np.dtype))": "bool"}
+
+    def requires(chunks, shape, limit, dtype, previous_chunks):
+        c, s = S.item(chunks, 0), S.item(shape, 0)
+        return S.And(s >= 0, S.Or(c >= 1, c == -1), S.Or(s >= 1, c != -1))
+
+    def ensures(result, chunks, shape, limit, dtype, previous_chunks):
+        c, s = S.item(chunks, 0), S.item(shape, 0)
+        return uniform_axis(S.item(result, 0), s, _full_or(c, s))
+
+
+@contract(f"{CORE}::_convert_int_chunk_to_tuple", spec="rank1-explicit", props=["C16"])
+class convert_int_chunk_rank1_explicit:
+    """an explicit tuple of block sizes is passed through unchanged"""
+    params = {"shape": "tup:int", "chunks": "tup:seq"}
+    result = "tup:seq"
+
+    def requires(shape, chunks):
+        return True
+
+    def ensures(result, shape, chunks):
+        return {"unchanged": S.seq_equal(S.item(result, 0), S.item(chunks, 0))}
+
+
+def _explicit(spec, extra_params):
+    @contract(f"{CORE}::normalize_chunks", spec=spec, props=["C16", "C14"])
+    class normalize_chunks_explicit_rank1:
+        """an explicit tuple of block sizes is accepted unchanged exactly when it is non-empty and adds up to the axis
+        length; otherwise ValueError"""
+        params = dict({"chunks": "tup:seq", "shape": "tup:int"}, **extra_params)
+        result = "tup:seq"
+        externals = {"np.dtype": _ext_npdtype}
+        havoc = {"dtype and (not isinstance(dtype, np.dtype))": "bool"} if extra_params else {}
+
+        def requires(chunks, shape, **kw):
+            return S.And(S.item(shape, 0) >= 0, S.chunking(S.item(chunks, 0)))
+
+        def ensures(result, chunks, shape, **kw):
+            c = S.item(chunks, 0)
+            return {"unchanged": S.seq_equal(S.item(result, 0), c),
+                    "adds-up": S.ssum(S.item(result, 0)) == S.item(shape, 0),
+                    "non-empty": S.slen(S.item(result, 0)) >= 1}
+
+        raises = {"ValueError": lambda chunks, shape, **kw: S.Or(S.slen(S.item(chunks, 0)) == 0,
+                                                                 S.ssum(S.item(chunks, 0)) != S.item(shape, 0))}
+
+        def call(fn, chunks, shape, **kw):
+            return fn(chunks, shape, **kw)
+
+        def domain(tier, rng):
+            from contracts.slicing import chunkings
+            for n, c in chunkings(6 if tier == "quick" else 8):
+                for s in range(0, 9):
+                    yield dict({"chunks": (c,), "shape": (s,)}, **({} if not extra_params else {"limit": None, "dtype": "f8",
+                                                                                            "previous_chunks": ((s,),)}))
+            for s in (0, 3):
+                yield dict({"chunks": ((),), "shape": (s,)}, **({} if not extra_params else {"limit": 64, "dtype": "f8",
+                                                                                             "previous_chunks": ((s,),)}))
+
+    normalize_chunks_explicit_rank1.__name__ = "normalize_chunks_" + spec.replace("-", "_")
+    return normalize_chunks_explicit_rank1
+
+
+NE1 = _explicit("explicit-rank1", {})
+NE2 = _explicit("explicit-rank1-kw", {"limit": "optint", "dtype": "abs:DType", "previous_chunks": "tup:seq"})
+
+
 @contract(f"{CORE}::normalize_chunks", spec="ints-rank2", props=["C16"])
 class normalize_chunks_ints_rank2:
     params = {"chunks": "tup:int,int", "shape": "tup:int,int"}
